@@ -112,7 +112,7 @@ def gen_case(rng, n_ops, faults=False, crashes=False):
         elif k < 96:
             o = f"deltopic {s} {t}" + (" hard=1" if rng.chance(1, 2) else "")
         elif k < 97:
-            out.append(f"fg S5")
+            out.append(rng.choice(["fg S5", "fg S5", f"drop {s}", "drop S5"]))
             continue
         else:
             out.append(f"unload {t}")
@@ -260,6 +260,7 @@ def scenario(rng):
         out.append(f"sub {ms} {T}")
         for _ in range(3 + rng.below(5)):
             out.append(rng.choice(["fg S5", f"leave S5 {T}", f"sub S5 {T}", f"leave {ms} {T}", f"sub {ms} {T}", f"sub S4 {T}", f"leave S4 {T}",
+                                   "drop S5", f"drop {ms}", "drop S4",
                                    f"setsub S5 {T} mode=JRW", f"setsub S5 {T} mode=JRWP"]))
         out.append(f"get {owner} {T} sub")
     elif k == 8:    # deleting the topic with others attached, then coming back
